@@ -63,17 +63,17 @@ func globForm(v, s string) bool {
 	return strings.HasSuffix(s, parts[len(parts)-1])
 }
 
-// looseNamespace switches the namespace attribute to the reading that describes today's generated
-// matcher (an unanchored `.*/ns/<glob>/.*` over the whole principal, `*` spanning '/'); only used
-// to classify a disagreement (oracle.go classify), never for the verdict.
-var looseNamespace bool
+// Loose readings: used ONLY to classify a disagreement (oracle.go classify), never for the verdict. Each
+// entry reads ONE policy value of one attribute the way today's generated matcher behaves:
+//   ns : namespace value = the unanchored regex `.*/ns/<glob>/.*` over the whole principal (`*` spans '/')
+//   hdr: request.headers[..] value "*" = "header present" (present_match), also for an empty value
+//   jwt: `prefix*` requestPrincipals value = exact issuer (text before the value's last '/') + subject prefix
+//   tdp: five-part principal value with a `prefix*` trust-domain part = rewritten to every mesh trust domain
+type looseKey struct{ class, value string }
 
-// looseHeaderPresence: read request.headers[..] = "*" as "header present" (today's present_match),
-// classification only.
-var looseHeaderPresence bool
+var loose = map[looseKey]bool{}
 
-// looseValue: the single policy value the loose reading is applied to (classification only).
-var looseValue string
+func isLoose(class, v string) bool { return len(loose) > 0 && loose[looseKey{class, v}] }
 
 func looseNS(v, san string) bool {
 	for i := 0; i+4 <= len(san); i++ {
@@ -90,11 +90,6 @@ func looseNS(v, san string) bool {
 	return false
 }
 
-// looseJWTPrefix switches a `prefix*` requestPrincipals value to the reading that describes today's
-// generated matcher (issuer = text before the value's last '/', exactly; subject prefix after it);
-// only used to classify a disagreement.
-var looseJWTPrefix bool
-
 func tdForm(v, td string) bool {
 	if v == "*" {
 		return true
@@ -106,8 +101,10 @@ func tdForm(v, td string) bool {
 	return strings.HasPrefix(td, a) && strings.HasSuffix(td[len(a):], b)
 }
 
-func cidrHas(v string, ip uint32) bool {
-	if v == "" || strings.Contains(v, ":") {
+// cidrHas: the address lies in the block the value denotes: same address family, and the first
+// <prefix length> bits agree. Written on the bits, independently of netip.Prefix.Contains.
+func cidrHas(v string, ip netip.Addr) bool {
+	if v == "" {
 		return false
 	}
 	var pfx netip.Prefix
@@ -124,10 +121,16 @@ func cidrHas(v string, ip uint32) bool {
 	if err != nil {
 		return false
 	}
-	shift := uint(32 - pfx.Bits())
-	b := pfx.Addr().As4()
-	net := uint64(b[0])<<24 | uint64(b[1])<<16 | uint64(b[2])<<8 | uint64(b[3])
-	return uint64(ip)>>shift == net>>shift
+	if pfx.Addr().Is4() != ip.Is4() {
+		return false
+	}
+	a, b := pfx.Addr().AsSlice(), ip.AsSlice()
+	for i := 0; i < pfx.Bits(); i++ {
+		if (a[i/8]>>(7-uint(i%8)))&1 != (b[i/8]>>(7-uint(i%8)))&1 {
+			return false
+		}
+	}
+	return true
 }
 
 func portIs(v string, p uint32) bool {
@@ -255,7 +258,7 @@ func specAtom(a attrKind, pns, key, v string, r *request) bool {
 	case aSrcPrincipal:
 		return r.hasPeer && strForm(v, r.td+"/ns/"+r.ns+"/sa/"+r.sa)
 	case aSrcNamespace:
-		if looseNamespace && v == looseValue {
+		if isLoose("ns", v) {
 			return r.hasPeer && looseNS(v, r.uriSan())
 		}
 		return r.hasPeer && globForm(v, r.ns)
@@ -295,7 +298,7 @@ func specAtom(a attrKind, pns, key, v string, r *request) bool {
 			return false
 		}
 		hv, present := r.header(name)
-		if v == "*" && !(looseHeaderPresence && looseValue == "*") {
+		if v == "*" && !isLoose("hdr", "*") {
 			return present && hv != "" // documented: `*` matches when the value is not empty
 		}
 		return present && hdrForm(false, v, hv)
@@ -305,7 +308,7 @@ func specAtom(a attrKind, pns, key, v string, r *request) bool {
 		if !(ok1 && ok2 && !iss.isList && !sub.isList && iss.s != "" && sub.s != "") {
 			return false // request.auth.principal = <iss>/<sub>, defined when both claims are non-empty strings
 		}
-		if looseJWTPrefix && v == looseValue && !strings.HasPrefix(v, "*") && strings.HasSuffix(v, "*") && v != "*" {
+		if isLoose("jwt", v) && !strings.HasPrefix(v, "*") && strings.HasSuffix(v, "*") && v != "*" {
 			if i := strings.LastIndex(v, "/"); i >= 0 {
 				return iss.s == v[:i] && strings.HasPrefix(sub.s, strings.TrimSuffix(v[i+1:], "*"))
 			}
@@ -379,15 +382,54 @@ func aliasValues(a attrKind, vs []string) []string {
 			continue
 		}
 		p := strings.Split(v, "/")
-		if len(p) == 5 && p[0] != "*" && (inBundle(p[0]) || p[0] == "cluster.local") {
+		if len(p) != 5 || p[0] == "*" {
+			out = append(out, v)
+			continue
+		}
+		td, rest := p[0], strings.Join(p[1:], "/")
+		sfx := func(t string) bool { return strings.HasPrefix(td, "*") && strings.HasSuffix(t, td[1:]) }
+		anySfx := false
+		for _, t := range specBundle {
+			anySfx = anySfx || sfx(t)
+		}
+		switch {
+		case inBundle(td) || td == "cluster.local":
 			for _, t := range specBundle {
-				out = append(out, t+"/"+strings.Join(p[1:], "/"))
+				out = append(out, t+"/"+rest)
 			}
-		} else {
+		case anySfx:
+			// `*suffix` trust-domain part covering some of the mesh's trust domains: the value as written,
+			// plus the same identity in the trust domains of the bundle it does not cover itself
+			for _, t := range specBundle {
+				if sfx(t) {
+					out = append(out, v)
+				} else {
+					out = append(out, t+"/"+rest)
+				}
+			}
+		case isLoose("tdp", v) && tdPrefixForm(td) && bundleHasPrefix(strings.TrimSuffix(td, "*")):
+			for _, t := range specBundle {
+				out = append(out, t+"/"+rest)
+			}
+		default:
 			out = append(out, v)
 		}
 	}
 	return out
+}
+
+// tdPrefixForm: a trust-domain part of the form `prefix*` (not `*`, not `*suffix`).
+func tdPrefixForm(td string) bool {
+	return td != "*" && strings.HasSuffix(td, "*") && !strings.HasPrefix(td, "*")
+}
+
+func bundleHasPrefix(p string) bool {
+	for _, t := range specBundle {
+		if strings.HasPrefix(t, p) {
+			return true
+		}
+	}
+	return false
 }
 
 // Clause 2 of the statement. A field cannot be expressed on the filter chain when its attribute is
@@ -428,7 +470,7 @@ func attrExpressible(a attrKind, key string) bool {
 func valueParses(a attrKind, v string) bool {
 	switch a {
 	case aSrcIP, aRemoteIP, aDestIP:
-		if v == "" || strings.Contains(v, ":") {
+		if v == "" {
 			return false
 		}
 		if strings.Contains(v, "/") {
